@@ -219,9 +219,13 @@ func stringBytes(s *Stream) ([]byte, error) {
 			s.cursor = cursor
 			return literal, nil
 		case
-			// 0x00 is nul, 0x5c is '\\', 0x22 is '"' .
 			0x01, 0x02, 0x03, 0x04, 0x05, 0x06, 0x07, 0x08, 0x09, 0x0A, 0x0B, 0x0C, 0x0D, 0x0E, 0x0F, // 0x00-0x0F
-			0x10, 0x11, 0x12, 0x13, 0x14, 0x15, 0x16, 0x17, 0x18, 0x19, 0x1A, 0x1B, 0x1C, 0x1D, 0x1E, 0x1F, // 0x10-0x1F
+			0x10, 0x11, 0x12, 0x13, 0x14, 0x15, 0x16, 0x17, 0x18, 0x19, 0x1A, 0x1B, 0x1C, 0x1D, 0x1E, 0x1F: // 0x10-0x1F
+			// control characters must be escaped (RFC 8259 section 7)
+			s.cursor = cursor
+			return nil, errors.ErrInvalidCharacter(char(p, cursor), "string literal", s.totalOffset())
+		case
+			// 0x00 is nul, 0x5c is '\\', 0x22 is '"' .
 			0x20, 0x21 /*0x22,*/, 0x23, 0x24, 0x25, 0x26, 0x27, 0x28, 0x29, 0x2A, 0x2B, 0x2C, 0x2D, 0x2E, 0x2F, // 0x20-0x2F
 			0x30, 0x31, 0x32, 0x33, 0x34, 0x35, 0x36, 0x37, 0x38, 0x39, 0x3A, 0x3B, 0x3C, 0x3D, 0x3E, 0x3F, // 0x30-0x3F
 			0x40, 0x41, 0x42, 0x43, 0x44, 0x45, 0x46, 0x47, 0x48, 0x49, 0x4A, 0x4B, 0x4C, 0x4D, 0x4E, 0x4F, // 0x40-0x4F
@@ -370,6 +374,10 @@ func (d *stringDecoder) decodeByte(buf []byte, cursor int64) ([]byte, int64, err
 					return literal, cursor, nil
 				case nul:
 					return nil, 0, errors.ErrUnexpectedEndOfJSON("string", cursor)
+				case 0x01, 0x02, 0x03, 0x04, 0x05, 0x06, 0x07, 0x08, 0x09, 0x0A, 0x0B, 0x0C, 0x0D, 0x0E, 0x0F,
+					0x10, 0x11, 0x12, 0x13, 0x14, 0x15, 0x16, 0x17, 0x18, 0x19, 0x1A, 0x1B, 0x1C, 0x1D, 0x1E, 0x1F:
+					// control characters must be escaped (RFC 8259 section 7)
+					return nil, 0, errors.ErrInvalidCharacter(char(b, cursor), "string literal", cursor)
 				}
 				cursor++
 			}
